@@ -95,6 +95,10 @@ func timeClass(c int) time.Time {
 		return time.Now() // carries a monotonic clock reading
 	case 4:
 		return time.Date(2038, 1, 19, 3, 14, 8, 0, time.FixedZone("y", 14*3600))
+	case 6:
+		return time.Date(1936, 5, 1, 12, 0, 0, 5, time.FixedZone("AMT", 19*60+32)) // offset with a seconds part: 16-byte binary form
+	case 7:
+		return time.Date(1971, 1, 6, 7, 8, 9, 10, time.FixedZone("MMT", -(44*60 + 30))) // negative, seconds part
 	default:
 		return time.Unix(0, 0).UTC()
 	}
@@ -120,7 +124,16 @@ func equalLog(a, b *raft.Log) string {
 	case !a.AppendedAt.Equal(b.AppendedAt):
 		return "AppendedAt instant differs"
 	}
-	_, ao := a.AppendedAt.Zone()
+	// reference for the zone: what the standard library's own binary form preserves of it (the documented codec
+	// stores time.Time.MarshalBinary; what that form cannot carry is not the WAL's to keep)
+	ref := a.AppendedAt
+	if enc, err := a.AppendedAt.MarshalBinary(); err == nil {
+		var rt time.Time
+		if rt.UnmarshalBinary(enc) == nil {
+			ref = rt
+		}
+	}
+	_, ao := ref.Zone()
 	_, bo := b.AppendedAt.Zone()
 	if ao != bo {
 		return "AppendedAt zone offset differs"
